@@ -197,11 +197,11 @@ fn check(ctx: &Ctx) -> i32 {
             if l.samples.len() < 3 && (i + ctx.seed) % 40009 == 7 {
                 l.samples.push(json!({"url": format!("{}{}", BASE, suffix), "rule_sets": subjects.len(), "types": TYPES, "sources": SOURCES}));
             }
-            // (sets of three rules are run on suffixes one symbol shorter than the longest ones:
-            // the full product does not fit the thorough tier's time cap)
-            let longest = suffix.chars().count() as u32 == n;
+            // (thorough tier: sets of two and three rules are run on suffixes one symbol shorter than
+            // the longest ones; the full product does not fit the tier's time cap)
+            let longest = max_rules > 2 && suffix.chars().count() as u32 == n;
             for s in subjects {
-                if longest && s.texts.len() > 2 {
+                if longest && s.texts.len() > 1 {
                     continue;
                 }
                 for ty in TYPES {
@@ -212,7 +212,8 @@ fn check(ctx: &Ctx) -> i32 {
             }
         });
     });
-    let n2 = n - 1;
+    // (quick: one symbol shallower than the first sweep; thorough: two, the alphabet is larger)
+    let n2 = n - ctx.tier.pick(1, 2);
     ctx.bound("second_alphabet", json!(SIGMA2));
     ctx.bound("second_alphabet_suffix_max_len", n2);
     let total2 = count_strings_upto(SIGMA2.len() as u64, n2);
@@ -292,7 +293,7 @@ fn check(ctx: &Ctx) -> i32 {
     });
     ctx.finish(
         "model_checking",
-        "URL = https://x.com/p + every string of length <= n over {?,#,&,=,a,b,é}; x every subset of <= 2 (quick) / <= 3 (thorough; on suffixes up to n-1) rules of the 11-rule pool (+ four fixed triples in the quick tier); a second sweep one symbol shallower over the alphabet extended with an upper-case key and the multi-character key `utm` (engines built once per worker thread) x 5 request types x 2 initiators; a third sweep two symbols shallower behind 6 other spellings of the base (scheme case, empty userinfo, default port, IDN label, dot segments: the caller's spelling must survive); non-trivial = the engine reported a rewritten URL; states = engines built, transitions = requests checked, every one compared byte for byte with the reference",
+        "URL = https://x.com/p + every string of length <= n over {?,#,&,=,a,b,é}; x every subset of <= 2 (quick) / <= 3 (thorough; sets of 2 and 3 on suffixes up to n-1) rules of the 11-rule pool (+ four fixed triples in the quick tier); a second sweep one symbol shallower over the alphabet extended with an upper-case key and the multi-character key `utm` (engines built once per worker thread) x 5 request types x 2 initiators; a third sweep two symbols shallower behind 6 other spellings of the base (scheme case, empty userinfo, default port, IDN label, dot segments: the caller's spelling must survive); non-trivial = the engine reported a rewritten URL; states = engines built, transitions = requests checked, every one compared byte for byte with the reference",
         &["per-rule applicability is taken from the real public matcher (differential), the rewrite itself from the independent reference"],
     )
 }
